@@ -23,6 +23,7 @@ CastOk(e) ==
          [] e.how = "az_overflowing" -> e.obs.v = wrapped /\ e.obs.f = AnyFlag([i \in 1 .. Len(e.a) |-> IF InZ(e.a[i], e.bits, Sg(e)) THEN 0 ELSE 1])
 ZeroOneOk(e) ==
     CASE e.how = "is_zero" -> e.obs = <<AllOf([i \in 1 .. Len(e.a) |-> IF e.a[i] = 0 THEN 1 ELSE 0])>>
+      \* also the bytemuck forms: Zeroable::zeroed, and the value read back from its plain bytes (how = "zero", a = the elements)
       [] e.how \in {"zero", "one"} -> e.obs = e.a
       \* reciprocal of x/64 is 64/x: obs/64 * a/64 = 1
       [] e.how = "inv" -> \A i \in 1 .. Len(e.a) : e.obs[i] * e.a[i] = 4096
